@@ -135,14 +135,17 @@ def translate_loss(fn: ast.FunctionDef) -> tuple[str, list[str]]:
 
 SETTINGS_EXPECT = {
     "mean": "return self.data.mean()",
-    "scale": "return self.data.std()",
+    "scale": ["return self.data.std()",
+              "scale = self.data.std()\nif np.ndim(scale) == 0:\n    return scale if scale > 0 else 1.0\n"
+              "return scale.where(scale > 0, 1.0)"],
     "data_scaled": "return (self.data - self.mean) / self.scale",
     "loss": ("if self.standard_scale:\n    return self.loss_fn(self.data_scaled, (prediction - self.mean) / self.scale)\n"
              "return self.loss_fn(self.data, prediction)"),
 }
 
 
-def check_settings(src: str) -> None:
+def check_settings(src: str) -> bool:
+    """verifies the wrapper verbatim; returns whether `scale` guards a non-positive spread"""
     tree = ast.parse(src)
     cls = next((n for n in tree.body if isinstance(n, ast.ClassDef) and n.name == "_Settings"), None)
     if cls is None:
@@ -153,8 +156,13 @@ def check_settings(src: str) -> None:
             raise Unsupported(f"_Settings.{name} not found")
         body = [s for s in fns[name].body if not (isinstance(s, ast.Expr) and isinstance(s.value, ast.Constant))]
         got = "\n".join(ast.unparse(s) for s in body)
-        if got != want:
+        if isinstance(want, list):
+            if got not in want:
+                raise Unsupported(f"_Settings.{name} changed:\n{got}")
+            guard = want.index(got) == 1
+        elif got != want:
             raise Unsupported(f"_Settings.{name} changed:\n{got}")
+    return guard
 
 
 def check_routines(src: str) -> dict:
@@ -211,7 +219,7 @@ def render(repo: Path) -> str:
         parts.append(text)
         names.append(fn.name)
         needs[fn.name] = cls
-    check_settings((repo / "src/mxlpy/fit/abstract.py").read_text())
+    guard = check_settings((repo / "src/mxlpy/fit/abstract.py").read_text())
     defaults = check_routines((repo / "src/mxlpy/fit/routines.py").read_text())
     lo, hi = default_box((repo / "src/mxlpy/minimizers/_scipy.py").read_text())
     shipped = ", ".join(f'"{n}"' for n in sorted(names))
@@ -224,13 +232,13 @@ def render(repo: Path) -> str:
         + "\n".join(parts)
         + "\n/-- every function defined in fit/losses.py -/\n"
         f"def shipped : List String := [{shipped}]\n\n"
-        "/-- `_Settings.loss`: `loss_fn(data_scaled, (prediction - mean) / scale)` if standard_scale else\n"
-        "`loss_fn(data, prediction)` — the data goes into the FIRST parameter (`y_pred`), the prediction into the second -/\n"
-        f"def settingsLoss {{α : Type}} {BASE} (lossFn : List α → List α → α) (standardScale : Bool)\n"
-        "    (mean scale : α) (data prediction : List α) : α :=\n"
-        "  if standardScale then\n"
-        "    lossFn (vmap (fun x => (x - mean) / scale) data) (vmap (fun x => (x - mean) / scale) prediction)\n"
-        "  else lossFn data prediction\n\n"
+        "/-- `_Settings.scale` takes a spread that is not positive as 1 -/\n"
+        f"def scaleGuard : Bool := {'true' if guard else 'false'}\n\n"
+        "/-- `_Settings.loss` (checked verbatim against fit/abstract.py): data first, prediction second, both scaled\n"
+        "with the data's mean and `_Settings.scale` -/\n"
+        f"def settingsLoss {{α : Type}} [Sub α] [Div α] [LT α] [DecidableLT α] [NatCast α]\n"
+        "    (lossFn : List α → List α → α) (standardScale : Bool) (mean scale : α) (data prediction : List α) : α :=\n"
+        "  scaledLoss scaleGuard lossFn standardScale mean scale data prediction\n\n"
         "/-- `as_deepcopy: bool = True` and `if as_deepcopy: model = deepcopy(model)` open all three fit routines -/\n"
         "def fitCopiesByDefault : Bool := true\n"
         f"/-- default `loss_fn` of steady_state / time_course / protocol_time_course -/\n"
@@ -262,6 +270,10 @@ def generate(repo: Path, outdir: Path) -> None:
                               f"/- {str(e)[:600].replace('-/', '- /')} -/\n"
                               "def shipped : List String := []\n"
                               "def defaultBox : Rat × Rat := (0, 0)\n"
+                              "def scaleGuard : Bool := false\n"
+                              "def settingsLoss {α : Type} [Sub α] [Div α] [LT α] [DecidableLT α] [NatCast α]\n"
+                              "    (lossFn : List α → List α → α) (standardScale : Bool) (mean scale : α) (data prediction : List α) : α :=\n"
+                              "  scaledLoss false lossFn standardScale mean scale data prediction\n"
                               "def evalRat (name : String) (d p : List Rat) : Option Rat := none\n"
                               "end Mxl.C20.Gen\n")
         raise
